@@ -162,8 +162,9 @@ class CHECK(core.Check):
                "C27_counterexample_livelock)",
                "fairness of the OS / network (a listening server answers within k calls) is a hypothesis, exercised only by the "
                "double and one loopback run",
-               "TLS: bounded liveness for arbitrary connect/handshake latency is checked by the oracle on the doubles, proved "
-               "only for a server that answers at once (C27_tls_reconnects_after_cutoff)"]
+               "TLS: bounded liveness for arbitrary connect/handshake latency is proved for ClientTls.serviceConnect itself "
+               "(C27_tls_reconnects_within_partial, _after_cutoff_within, under the same pacing hypothesis); for a ClientTls "
+               "under TcpClientStack / https Patron it is checked by correspondence + oracle only"]
     TECHNIQUE = ("Lean 4 theorems (bounded liveness by induction on the latency k under explicit environment and pacing "
                  "hypotheses; safety invariants by induction over call sequences) + differential correspondence through a socket "
                  "double + direct oracle + loopback smoke run")
@@ -176,8 +177,9 @@ class CHECK(core.Check):
                   "C27_bare_reconnects_after_timer (end to end for a client whose attempts failed), C27_reports_live_addresses (invariant over all "
                   "histories), C27_stack_local_ha, C27_non_reconnectable_stays_closed (all histories of service calls). Full "
                   "TLS subclass: C27_tls_connected_implies_accepted (invariant over all TLS histories), "
-                  "C27_tls_reopen_clears_connected, C27_tls_reconnects_after_cutoff (immediate server; general latency only by "
-                  "correspondence + oracle). Full statement C27_full is false on the code: C27_counterexample_livelock (D28, known finding). "
+                  "C27_tls_reopen_clears_connected, C27_tls_reconnects_after_cutoff (immediate server), "
+                  "C27_tls_reconnects_within_partial and C27_tls_reconnects_after_cutoff_within (ClientTls.serviceConnect: connect "
+                  "latency a, handshake latency b, paced schedule => connected after a+b-1 calls, by induction on both counters). Full statement C27_full is false on the code: C27_counterexample_livelock (D28, known finding). "
                   "C27_counterexample_asis_bare_stays_cut_off documents the behaviour before fix D27.")
     LEVEL_NOTE = ("Trusted: Lean kernel; axioms propext, Classical.choice, Quot.sound; the hand transcription of the connection "
                   "management of Client, TcpClientStack.serviceConnect and Patron.serviceAll, validated by the correspondence runs "
